@@ -187,7 +187,11 @@ func exec(run *core.Run, pl interface{}) {
 				return
 			}
 			if o.canon != ref[i].canon {
-				run.Fail("replicas-diverged", metacmd.TypeNames[s.Cmd.Type], "step %d %s: lagging/restarted replica %d (applies the log later, on another clock) differs from the live replica:\n%s", i, s.Cmd.Desc, r, diff(ref[i].canon, o.canon))
+				site := metacmd.TypeNames[s.Cmd.Type]
+				if metacmd.EpochTruncation(fsms[0].Data()) {
+					site = "after-truncation-at-the-unix-epoch"
+				}
+				run.Fail("replicas-diverged", site, "step %d %s: lagging/restarted replica %d (applies the log later, on another clock) differs from the live replica:\n%s", i, s.Cmd.Desc, r, diff(ref[i].canon, o.canon))
 				return
 			}
 		}
